@@ -28,7 +28,7 @@ def f2_hits(rows):
         reported, ready_intr = set(), set()
         for i, r in enumerate(ex):
             e, op = r.get('e'), r.get('op')
-            if e == 'Inv' and op == 'interrupt' and r.get('st') in (0, 1):
+            if e == 'Inv' and op == 'interrupt' and r.get('st') in (0, 1, 8):
                 pend_intr[r['t']] = (r['target'], r['err'])
                 ready_intr.add((r['target'], r['err']))
             elif e == 'Resp' and op == 'interrupt' and r['t'] in pend_intr:
@@ -107,6 +107,20 @@ def shutdown_stage(ctx):
                              'marked_while_sleeping': sum(1 for r in rows if r.get('e') == 'ShutInv' and r.get('flag') and r.get('st') == 2)}
     if not capped:
         raise vtlib.InfraError('h_sync --prim shutdown: no sleep of a marked thread recorded (vacuous stage)')
+    # "no later than the first scheduling round after its deadline, whatever ... are interrupted from other vCPUs": a finite
+    # sleeper under a storm of cross-vCPU wake-ups on its vCPU; late ROUNDS are counted (load-independent), judged by the Starve
+    # action of the same specification
+    trace = f'{ctx.out}/starve.ndjson'
+    ctx.run_harness(h, ['--prim', 'starve', '--execs', 12 if ctx.tier == 'quick' else 150, '--seed', ctx.seed + 13, '--vcpus', 2,
+                        '--out', trace], timeout=1500, ok_rcs=(0, 3, 4))
+    rows = vtlib.read_ndjson(trace)
+    acc, rejs, n = tracecheck.validate(ctx, 'Trace_ShutdownA', 'Trace_ShutdownA.cfg', rows, tagbase='starveA', timeout=900)
+    tracecheck.report(ctx, rejs, 'starve', name='Trace_ShutdownA_starve')
+    st = [r for r in rows if r.get('e') == 'Starve']
+    ctx.extra['starve'] = {'executions': n, 'accepted': acc, 'max_late_rounds': max((r['late'] for r in st), default=0),
+                           'rounds_with_a_cross_vcpu_wakeup': sum(r['xrounds'] for r in st)}
+    if not st or not ctx.extra['starve']['rounds_with_a_cross_vcpu_wakeup']:
+        raise vtlib.InfraError('h_sync --prim starve: no storm recorded (vacuous stage)')
 
 
 def timer_stage(ctx):
@@ -128,7 +142,7 @@ def timer_stage(ctx):
 
 def replay(ctx, path):
     rows = vtlib.read_ndjson(path)
-    if any(r.get('e') in ('ShutInv',) for r in rows) or any(r.get('prim') == 'shutdown' for r in rows):
+    if any(r.get('e') in ('ShutInv', 'Starve') for r in rows) or any(r.get('prim') in ('shutdown', 'starve') for r in rows):
         acc, rejs, n = tracecheck.validate(ctx, 'Trace_ShutdownA', 'Trace_ShutdownA.cfg', rows, tagbase='replay_shut')
         tracecheck.report(ctx, rejs, 'shutdown', name='Trace_ShutdownA_shutdown')
         return 1 if ctx.violations else 0
